@@ -66,6 +66,18 @@ def base_cell(world):
     return _BASE[key]
 
 
+def pristine_cell(base):
+    """An independent empty supercell for a run. Not made with the SUT's own copy() (a copy() that shares
+    state would then leak edits into the per-worker cached cell and from there into later runs): Python's
+    deepcopy, sharing only the immutable geometry."""
+    memo = {}
+    for attr in ("crys", "G", "pos", "translist", "transdict", "atomindices", "indexatom", "invsuper",
+                 "lattice", "superlatt", "Wyckofflist", "Wyckoffchem"):
+        v = getattr(base, attr)
+        memo[id(v)] = v
+    return copy.deepcopy(base, memo)
+
+
 class Model(object):
     """Reference: what a supercell's bookkeeping must be."""
 
@@ -165,7 +177,7 @@ class Run(RunBase):
         self.nchem = base.Nchem
         self.ncrys = base.crys.Nchem
         self.atomindices = list(base.atomindices)
-        self.objs = [base.copy()]
+        self.objs = [pristine_cell(base)]
         self.models = [Model(self.nsites, self.nchem, base.chemistry)]
         self.relatives = False  # some object has a live copy
 
@@ -470,7 +482,7 @@ class Run(RunBase):
         dst = op["dst"]
         empty = bool(op["empty"])
         if dst == "fresh":
-            tgt, mt = self.base.copy(), Model(self.nsites, self.nchem, self.base.chemistry)
+            tgt, mt = pristine_cell(self.base), Model(self.nsites, self.nchem, self.base.chemistry)
             for c in range(self.ncrys, self.nchem):
                 if ms.chem[c]:
                     tgt.definesolute(c, ms.chem[c])
